@@ -179,7 +179,14 @@ impl St {
             Stmt::Alter { action: AlterAction::AddColumn(_), .. } if has("alter_add_column") && !matches!(exp, Expect::Fail(_)) => {
                 return Some("alter_add_column".into());
             }
-            Stmt::CreateIndex { cols, .. } => {
+            Stmt::CreateIndex { cols, name, .. } => {
+                // finding X2: a plain DROP TABLE leaves the table's named indexes in the catalog, so the
+                // name of an index of a dropped table stays taken
+                if has("index_name_of_dropped_table_reused")
+                    && self.model.tables.iter().enumerate().any(|(i, t)| Some(i) != ti && !t.droppers.is_empty() && t.uniques.iter().any(|u| &u.name == name))
+                {
+                    return Some("index_name_of_dropped_table_reused".into());
+                }
                 if has("mixed_type_index_out_of_table_order") && !matches!(exp, Expect::Fail(_)) {
                     if let Some(ti) = ti {
                         let t = &self.model.tables[ti];
